@@ -660,6 +660,11 @@ async def load_scripts(
             parts = global_ctx_name.split(".")
             root = f"{parts[0]}.{parts[1]}"
             will_reload.add(root)
+    for global_ctx_name in ctx_delete:
+        # a module whose file was deleted is a changed module too: reload what imports it
+        if global_ctx_name.startswith("modules.") and global_ctx_name not in ctx2files:
+            parts = global_ctx_name.split(".")
+            will_reload.add(f"{parts[0]}.{parts[1]}")
 
     if len(will_reload) > 0:
 
